@@ -14,7 +14,9 @@
 // Oracle: a taint scan of the whole log — every secret names its owner host and may only
 // be seen by that host (credentials/tokens also by the realm that host's challenge names).
 // Concurrent scenarios: "gate" imposes, through the verif hook points of fs/remote,
-//   fetch/check read the old URL -> refreshURL completes -> fetch/check reads f.header,
+//
+//	fetch/check read the old URL -> refreshURL completes -> fetch/check reads f.header,
+//
 // "storm" runs unsynchronised fetches/checks during mode switches for the race detector.
 //
 // The binary is the race build at top level (BUILDS: top=race); races are attributed to
@@ -23,6 +25,7 @@ package main
 
 import (
 	"fmt"
+	"time"
 
 	"github.com/containerd/log"
 	"github.com/sirupsen/logrus"
@@ -72,7 +75,7 @@ func main() {
 			"non-trivial = some query was answered with credentials AND some query for which related credentials existed (other tag of the repository, removed image, other server address) was answered empty. "+
 			"part (b): one case = one scripted registry world (mirrors with secret headers, auth kinds, redirect/direct/expiring CDN, CRI + static credentials) with an operation script (Resolve, ReadAt, Cache, Check, Refresh, expiry, mode switches), sequential, hook-gated or concurrent storm; "+
 			"non-trivial = a configured secret was delivered to its owner host AND at least one request went to a host that owns none of the delivered secrets (redirect target, other registry host, token realm); gated cases additionally require the imposed order to have been realised. Distinct by generated case descriptor.",
-		90, 4000, body)
+		150, 3000, body)
 }
 
 func body(r *vf.Run) {
@@ -83,26 +86,31 @@ func body(r *vf.Run) {
 	nt = &ntCollector{r: r, parts: map[string][]string{}}
 
 	// ---- part (a)
-	nSeq, nConc := r.N(220, 15000), r.N(80, 5000)
+	nSeq, nConc := r.N(400, 6000), r.N(150, 3000)
+	t := time.Now()
 	for i := 0; i < nSeq; i++ {
 		runSeqHistory(r, i, r.RNG(1, uint64(i)))
 	}
+	r.Set("wall_s_keychain_sequential", time.Since(t).Seconds())
+	t = time.Now()
 	for i := 0; i < nConc; i++ {
 		runConcHistory(r, i, r.RNG(2, uint64(i)))
 	}
+	r.Set("wall_s_keychain_concurrent", time.Since(t).Seconds())
 
 	// ---- part (b)
 	kinds := []struct {
 		kind string
 		n    int
 	}{
-		{"seq", r.N(24, 800)},
-		{"gate-fetch", r.N(14, 450)},
-		{"gate-check", r.N(8, 250)},
-		{"storm", r.N(14, 500)},
+		{"seq", r.N(60, 1500)},
+		{"gate-fetch", r.N(30, 800)},
+		{"gate-check", r.N(20, 500)},
+		{"storm", r.N(30, 800)},
 	}
 	idx := 0
 	for ki, k := range kinds {
+		t = time.Now()
 		for i := 0; i < k.n; i++ {
 			rng := r.RNG(3, uint64(ki), uint64(i))
 			sc := genScenario(rng, idx, k.kind)
@@ -112,14 +120,15 @@ func body(r *vf.Run) {
 				break
 			}
 		}
+		r.Set("wall_s_headers_"+k.kind, time.Since(t).Seconds())
 	}
 
 	nt.flush(map[string]int{
-		"keychain-sequential": r.N(40, 2500),
-		"keychain-concurrent": r.N(10, 600),
-		"headers-sequential":  r.N(5, 150),
-		"headers-gated":       r.N(4, 120),
-		"headers-storm":       r.N(3, 100),
+		"keychain-sequential": r.N(100, 1800),
+		"keychain-concurrent": r.N(25, 500),
+		"headers-sequential":  r.N(12, 300),
+		"headers-gated":       r.N(12, 300),
+		"headers-storm":       r.N(8, 200),
 	})
 
 	r.AccountOwnRaces([]string{"fs/remote.(*httpFetcher)", "service/keychain/cri.", "service/resolver."}, nil)
